@@ -28,6 +28,7 @@ var ErrInjected = errors.New("sim: injected I/O fault")
 // Conn is the simulated underlying http.ResponseWriter. It accepts at most FailAfter body bytes (no limit when < 0);
 // the write that crosses the limit is short and returns ErrInjected, later writes accept nothing.
 type Conn struct {
+	CapFail int // the next CapFail calls of optional capabilities (hijack, push, deadlines, full duplex) fail with ErrCap
 	H               http.Header
 	Events          []ConnEvent
 	Status          int // first final status received, explicit or implied by a body write (0 = none)
@@ -145,39 +146,50 @@ func (f febT) FlushError() error {
 	return f.Conn.FlushErr
 }
 
+// ErrCap is what an optional capability of the connection answers while Conn.CapFail is positive.
+var ErrCap = errors.New("simulated connection: capability failed")
+
+func (c *Conn) capResult() error {
+	if c.CapFail > 0 {
+		c.CapFail--
+		return ErrCap
+	}
+	return nil
+}
+
 type hjT struct{ *Conn }
 
 func (h hjT) Hijack() (net.Conn, *bufio.ReadWriter, error) {
 	h.Conn.Events = append(h.Conn.Events, ConnEvent{Kind: "hijack"})
-	return nil, nil, nil
+	return nil, nil, h.Conn.capResult()
 }
 
 type puT struct{ *Conn }
 
 func (p puT) Push(string, *http.PushOptions) error {
 	p.Conn.Events = append(p.Conn.Events, ConnEvent{Kind: "push"})
-	return nil
+	return p.Conn.capResult()
 }
 
 type rdT struct{ *Conn }
 
 func (r rdT) SetReadDeadline(time.Time) error {
 	r.Conn.Events = append(r.Conn.Events, ConnEvent{Kind: "rdeadline"})
-	return nil
+	return r.Conn.capResult()
 }
 
 type wdT struct{ *Conn }
 
 func (w wdT) SetWriteDeadline(time.Time) error {
 	w.Conn.Events = append(w.Conn.Events, ConnEvent{Kind: "wdeadline"})
-	return nil
+	return w.Conn.capResult()
 }
 
 type fdT struct{ *Conn }
 
 func (f fdT) EnableFullDuplex() error {
 	f.Conn.Events = append(f.Conn.Events, ConnEvent{Kind: "fullduplex"})
-	return nil
+	return f.Conn.capResult()
 }
 
 // Wrap returns a writer offering exactly caps. Supported combinations: any subset of {ReaderFrom, Flusher|FlushError}
